@@ -16,9 +16,11 @@ import (
 	"io"
 	"os"
 	"os/exec"
+	"strconv"
 	"strings"
 	"sync"
 	"syscall"
+	"testing"
 	"time"
 )
 
@@ -105,6 +107,7 @@ const (
 	callResource
 	callCrash
 	callHang
+	callSlow
 )
 
 // pool of one worker per test process (rapid runs properties sequentially).
@@ -161,28 +164,88 @@ func callWorker(op string, args []string, data []byte, timeout time.Duration) (r
 		}
 		ch <- result{string(buf), nil}
 	}()
-	select {
-	case r := <-ch:
-		if r.err == nil {
-			return r.resp, callOK, ""
-		}
-		// worker died
-		_ = w.cmd.Wait()
-		text := w.stderr.String()
-		theWorker = nil
-		if strings.Contains(text, "out of memory") || strings.Contains(text, "cannot allocate memory") || strings.Contains(text, "failed to reserve") || strings.Contains(text, "errno=12") {
-			return "", callResource, lastLines(text, 12)
-		}
-		return "", callCrash, lastLines(text, 60)
-	case <-time.After(timeout):
-		// take a goroutine dump, then kill
-		_ = w.cmd.Process.Signal(syscall.SIGQUIT)
-		time.Sleep(300 * time.Millisecond)
-		w.kill()
-		text := w.stderr.String()
-		theWorker = nil
-		return "", callHang, lastLines(text, 80)
+	// Non-termination is judged on the worker's own CPU time, not on wall time alone (the machine may be busy): the call
+	// is declared hung when it has BURNED `timeout` of CPU (a loop that does not end), or when `timeout` of wall time has
+	// passed and it used less than a second of CPU during the last half of it (blocked for good). A call that is merely
+	// slow under load keeps going, up to 10x timeout of wall time, after which it is given up as "slow" (not judged).
+	start := time.Now()
+	cpu0 := procCPU(w.cmd.Process.Pid)
+	type sample struct {
+		at  time.Time
+		cpu time.Duration
 	}
+	var samples []sample
+	tick := time.NewTicker(time.Second)
+	defer tick.Stop()
+	for {
+		select {
+		case r := <-ch:
+			if r.err == nil {
+				return r.resp, callOK, ""
+			}
+			// worker died
+			_ = w.cmd.Wait()
+			text := w.stderr.String()
+			theWorker = nil
+			if strings.Contains(text, "out of memory") || strings.Contains(text, "cannot allocate memory") || strings.Contains(text, "failed to reserve") || strings.Contains(text, "errno=12") {
+				return "", callResource, lastLines(text, 12)
+			}
+			return "", callCrash, lastLines(text, 60)
+		case now := <-tick.C:
+			used := procCPU(w.cmd.Process.Pid) - cpu0
+			samples = append(samples, sample{now, used})
+			wall := now.Sub(start)
+			verdict := callOK
+			switch {
+			case used >= timeout:
+				verdict = callHang
+			case wall >= timeout:
+				// CPU used during the last timeout/2 of wall time
+				recent := used
+				for _, sm := range samples {
+					if now.Sub(sm.at) <= timeout/2 {
+						recent = used - sm.cpu
+						break
+					}
+				}
+				if recent < time.Second {
+					verdict = callHang
+				} else if wall >= 10*timeout {
+					verdict = callSlow
+				}
+			}
+			if verdict == callOK {
+				continue
+			}
+			// take a goroutine dump, then kill
+			_ = w.cmd.Process.Signal(syscall.SIGQUIT)
+			time.Sleep(300 * time.Millisecond)
+			w.kill()
+			text := w.stderr.String()
+			theWorker = nil
+			return "", verdict, fmt.Sprintf("(wall %v, worker CPU %v)\n%s", wall.Round(time.Second), used.Round(time.Millisecond), lastLines(text, 80))
+		}
+	}
+}
+
+// procCPU: user+system CPU time consumed so far by process pid (0 if it cannot be read).
+func procCPU(pid int) time.Duration {
+	b, err := os.ReadFile(fmt.Sprintf("/proc/%d/stat", pid))
+	if err != nil {
+		return 0
+	}
+	s := string(b)
+	i := strings.LastIndexByte(s, ')') // the command name may contain spaces
+	if i < 0 {
+		return 0
+	}
+	f := strings.Fields(s[i+1:])
+	if len(f) < 13 {
+		return 0
+	}
+	ut, _ := strconv.ParseInt(f[11], 10, 64) // fields 14 and 15 of the line
+	st, _ := strconv.ParseInt(f[12], 10, 64)
+	return time.Duration(ut+st) * time.Second / 100 // USER_HZ is 100 on Linux
 }
 
 func lastLines(s string, n int) string {
@@ -208,11 +271,13 @@ func isolated(op string, args []string, data []byte) string {
 		return "SKIP: resource exhaustion in worker (not a stated failure mode): " + firstLine(detail)
 	case callCrash:
 		return fmt.Sprintf("FAIL: worker process died (not an out-of-memory death) while running %s %s:\n%s", op, clipS(fmt.Sprint(args)), detail)
+	case callSlow:
+		return "SKIP: slow run on a busy machine, given up after 10 minutes without a verdict: " + firstLine(detail)
 	default:
 		// confirm the hang on a fresh worker before believing it
 		_, st2, detail2 := callWorker(op, args, data, 60*time.Second)
 		if st2 == callHang {
-			return fmt.Sprintf("FAIL: %s %s did not return within 60 s, twice (goroutine dump):\n%s", op, clipS(fmt.Sprint(args)), detail2)
+			return fmt.Sprintf("FAIL: %s %s did not return (60 s of CPU burned, or 60 s elapsed with the worker idle), twice (goroutine dump):\n%s", op, clipS(fmt.Sprint(args)), detail2)
 		}
 		return "SKIP: one slow run, not reproduced"
 	}
@@ -223,4 +288,36 @@ func firstLine(s string) string {
 		return s[:i]
 	}
 	return s
+}
+
+// self-test of the non-termination rule (run with VERIF_SELFTEST=1): a busy loop and a blocked call must both be reported,
+// a call that finishes must not.
+func init() {
+	workerHandlers["selfhang"] = func(args []string, _ []byte) string {
+		switch args[0] {
+		case "busy":
+			for x := 0; ; x++ {
+				if x < 0 {
+					return "impossible"
+				}
+			}
+		case "blocked":
+			select {}
+		}
+		return "OK"
+	}
+}
+
+func TestWorkerHangRule(t *testing.T) {
+	if os.Getenv("VERIF_SELFTEST") == "" {
+		t.Skip("self-test only")
+	}
+	for _, mode := range []string{"finishes", "busy", "blocked"} {
+		t0 := time.Now()
+		v := isolated("selfhang", []string{mode}, nil)
+		t.Logf("%s: %v -> %s", mode, time.Since(t0).Round(time.Second), firstLine(v))
+		if (mode == "finishes") != (v == "OK") || (mode != "finishes" && !strings.HasPrefix(v, "FAIL:")) {
+			t.Errorf("%s: unexpected verdict %s", mode, firstLine(v))
+		}
+	}
 }
